@@ -22,12 +22,14 @@ LEVEL_TEXT = (
     " the maximising aggregate of the fitness stored for the problem it was built for, of the individual it is "
     "given. (R2) lexicase: exactly one shuffle of the full case list between consecutive winners. (R3) every "
     "winner is among the survivors of the reference lexicase filter for that winner's scripted order over the "
-    "individuals still available - all four minimise-flag combinations, two fitness tables, epsilon off and on "
-    "(median absolute deviation band), a crash for lack of survivors is a violation. (R4) winners are members of "
-    "the population and none is returned twice. (R5) individuals compare by identity: Individual defines no "
-    "__eq__ / __hash__ of its own, so list.remove / in / index in the selection steps address the very object "
-    "drawn and not an equal-looking one (two individuals with equal genotypes are distinct candidates). Decides "
-    "these for the model sizes and all scripted draws; outcome distributions are not decided."
+    "individuals still available - all four minimise-flag combinations, three fitness tables (one with values "
+    "closer than any isclose tolerance), epsilon off and on; numpy's element-wise comparisons, masks and isclose "
+    "are interpreted (median absolute deviation band), a crash for lack of survivors is a violation. (R4) winners"
+    " are members of the population and none is returned twice, also when five winners are requested from a "
+    "population of three. (R5) individuals compare by identity: Individual defines no __eq__ / __hash__ of its "
+    "own, so list.remove / in / index in the selection steps address the very object drawn and not an equal-"
+    "looking one (two individuals with equal genotypes are distinct candidates). Decides these for the model "
+    "sizes and all scripted draws; outcome distributions are not decided."
 )
 
 
